@@ -349,6 +349,12 @@ func generate(r *vh.Rng, thorough bool, rep *vh.Report) []*kase {
 	for i := 0; i < 3000*mult; i++ {
 		lines = append(lines, genX(r))
 	}
+	for i := 0; i < 1500*mult; i++ {
+		lines = append(lines, genC(r))
+	}
+	for i := 0; i < 1500*mult; i++ {
+		lines = append(lines, genT(r))
+	}
 	for i := 0; i < 500*mult; i++ {
 		lines = append(lines, genW(r, r.PickInt([]int{0, 1, 2, 3, 10, 50})))
 	}
